@@ -270,6 +270,11 @@ class Rules:
             src = self.r7_step_by(fname, src)
         src = self.r6_zip(fname, src)
         src = self.r17_zero(fname, src)
+        if fname == 'engine/shards.rs':
+            # R22: `&mut self.data[a..b]` on the Vec of `Shards` -> `&mut self.data.as_mut_slice()[a..b]`: Vec's IndexMut<Range>
+            # is defined as indexing its slice (`IndexMut::index_mut(&mut **self, index)`); vstd specifies range IndexMut for
+            # slices only (the slice twin ShardsRefMut::index_mut is verified with the same proof text)
+            src = self.regex_rule('R22', fname, src, r'(impl IndexMut<usize> for Shards \{\s*fn index_mut\(&mut self, index: usize\) -> &mut Self::Output \{\s*)&mut self\.data\[', r'\1&mut self.data.as_mut_slice()[')
         if fname in ('rate.rs', 'engine.rs') or fname.startswith('rate/rate_') or fname.startswith('engine/engine_'):
             src = self.r11_assoc(fname, src)
         if fname in ARCH_FILES:
